@@ -66,6 +66,9 @@ pub struct ForeignSpec {
     pub docsummary: bool,
     /// shuffle catalog rows instead of writing them sorted
     pub shuffle_catalog: bool,
+    /// put the strings the catalog tables use at the front of the pool
+    #[serde(default)]
+    pub catalog_first: bool,
 }
 
 fn strip_for_no_validation(c: &ColSpec) -> ColSpec {
@@ -268,6 +271,22 @@ impl ForeignSpec {
         let mut entries: Vec<(Option<&str>, u32)> = Vec::new();
         let mut keys: Vec<&str> = counts.keys().cloned().collect();
         rng.shuffle(&mut keys);
+        let mut front = 0usize;
+        if self.catalog_first {
+            let mut cat_strings: std::collections::HashSet<&str> = std::collections::HashSet::new();
+            for t in ts.iter().filter(|t| t.name.starts_with('_')) {
+                for r in t.rows.iter() {
+                    for v in r.iter() {
+                        if let Val::Str(s) = v {
+                            cat_strings.insert(s.as_str());
+                        }
+                    }
+                }
+            }
+            let (a, b): (Vec<&str>, Vec<&str>) = keys.iter().partition(|k| cat_strings.contains(*k));
+            front = a.len();
+            keys = a.into_iter().chain(b.into_iter()).collect();
+        }
         for s in keys.iter() {
             let n = counts[s];
             if self.pool_dups && n >= 2 && rng.chance(500) {
@@ -278,7 +297,8 @@ impl ForeignSpec {
             }
         }
         for _ in 0..self.pool_holes {
-            let at = rng.usize_below(entries.len() + 1);
+            let lo = if self.catalog_first { (front * 2).min(entries.len()) } else { 0 };
+            let at = lo + rng.usize_below(entries.len() - lo + 1);
             entries.insert(at, (None, 0));
         }
         for _ in 0..self.pool_pad {
